@@ -9,7 +9,7 @@ EXTENDS Store, HtmlAdapter, Json
 
 CONSTANT EmitOn
 H_ElemNames == {[sp |-> <<>>, lo |-> <<"p">>], [sp |-> <<>>, lo |-> <<"b">>]}
-H_AttrNames == {[sp |-> <<>>, lo |-> <<"c">>]}
+H_AttrNames == {[sp |-> <<>>, lo |-> <<"c">>], [sp |-> <<>>, lo |-> <<"a", ":", "b", ":", "c">>]}   \* a name with two colons: the prefix ends at the FIRST one
 H_AttrValues == {<<"1">>}
 H_Texts == {<<"t">>}
 H_Comments == {<<"c">>}
@@ -40,7 +40,7 @@ PrefixOK == LET got == StripSurplusEnd(emitted, 1, 0) IN Len(got) <= Len(Want) /
 CompleteAtEOF == (fin = "eof" => SameTree(emitted, Want)) /\ fin # "err"
 ContractOK == Conforms(emitted)
 \* the mapping equals the Store document itself (names are local, no namespaces in this pool)
-MappingIsIdentity == Complete => TreeOf(Want) = doc
+MappingIsIdentity == Complete => TreeOf(Want) = [n \in DOMAIN doc |-> IF doc[n].k \in {"elem", "attr"} THEN [doc[n] EXCEPT !.lo = LocalPart(@)] ELSE doc[n]]
 Emit == (EmitOn /\ fin = "eof") => PrintT(ToJson([fam |-> "C17.dom", body |-> doc]))
 MView == <<doc, open, phase, h, emitted, fin>>
 =============================================================================
